@@ -5,7 +5,8 @@ import Sudachi.Model.Trie
 /-!
 # Dictionary builder (property C05): `dic/build/{parse,lexicon,conn,index,resolve,mod}.rs`
 
-CSV records (already split into fields by the real `csv` crate) → `RawLexiconEntry` list → resolved
+CSV TEXT → records (`Model/CodecCsv.lean`) → `RawLexiconEntry` list (the FIELD layer: `unescape`, number and id
+parsers, split columns, POS interning, mode rule - all executed by the driver from the raw record fields) → resolved
 entries → the byte layout of `DictBuilder::compile`.  The double-array trie is produced by the external
 `yada` builder: its bytes are an input of `compile` (cut out of the real output by the harness); the
 word-id table, which depends on the insertion order of `IndexBuilder`, is modelled.
@@ -239,7 +240,7 @@ def parseRecord (rd : Reader) (f : Array Str) : Option Reader := do
     | none => some []
   let (pos, rd) ← posOf rd [p1, p2, p3, p4, p5, p6]
   if mode = .A ∧ (!splitA.isEmpty || !splitB.isEmpty) then none
-  else if surface.isEmpty then none
+  else if surface.isEmpty || surface.contains 0 then none  -- `EmptySurface`: empty, or a U+0000 (raw or as `\\u0000`; repair D5)
   else
     let entry : RawEntry :=
       { left := left, right := right, cost := cost, dicForm := dicForm,
